@@ -1,13 +1,16 @@
 package main
 
 import (
+	"bufio"
 	"bytes"
 	"context"
 	"fmt"
+	"io"
 	"os"
 	"os/exec"
 	"path/filepath"
 	"strings"
+	"sync"
 	"time"
 )
 
@@ -176,12 +179,60 @@ func runSolver(spec solverSpec, script string, timeoutMs, seed int, nq int) (str
 	defer cancel()
 	cmd := exec.CommandContext(ctx, spec.bin, spec.args(timeoutMs, seed)...)
 	cmd.Stdin = strings.NewReader(script)
-	var out bytes.Buffer
-	cmd.Stdout = &out
-	cmd.Stderr = &out
+	pr, pw := io.Pipe()
+	cmd.Stdout = pw
+	cmd.Stderr = pw
 	t0 := time.Now()
+	var out bytes.Buffer
+	done := make(chan struct{})
+	// the answers are read as they arrive so that the time of every single query is known: the marker Q<k> is echoed
+	// right before (check-sat) of query k, the answer line follows when the solver has decided
+	lastQ, lastT := -1, t0
+	times := map[int]float64{}
+	go func() {
+		sc := bufio.NewScanner(pr)
+		sc.Buffer(make([]byte, 1<<20), 1<<26)
+		for sc.Scan() {
+			line := sc.Text()
+			out.WriteString(line)
+			out.WriteByte('\n')
+			l := strings.Trim(strings.TrimSpace(line), "\"")
+			var k int
+			if strings.HasPrefix(l, "Q") {
+				if _, err := fmt.Sscanf(l, "Q%d", &k); err == nil && fmt.Sprintf("Q%d", k) == l {
+					lastQ, lastT = k, time.Now()
+					continue
+				}
+			}
+			if lastQ >= 0 {
+				if _, seen := times[lastQ]; !seen {
+					times[lastQ] = time.Since(lastT).Seconds()
+				}
+			}
+		}
+		close(done)
+	}()
 	_ = cmd.Run()
+	_ = pw.Close()
+	<-done
+	lastTimesMu.Lock()
+	lastTimes[script] = times
+	lastTimesMu.Unlock()
 	return out.String(), time.Since(t0).Seconds()
+}
+
+// per-query solver times of the most recent run of a script (keyed by the script text, read once by the caller)
+var (
+	lastTimes   = map[string]map[int]float64{}
+	lastTimesMu sync.Mutex
+)
+
+func takeTimes(script string) map[int]float64 {
+	lastTimesMu.Lock()
+	defer lastTimesMu.Unlock()
+	t := lastTimes[script]
+	delete(lastTimes, script)
+	return t
 }
 
 // parse splits the output by the Q<k> echo markers.
@@ -252,9 +303,13 @@ func (u *Unit) Solve(order []string, timeoutMs, seed int, agree bool, dumpDir st
 		}
 		out, secs := runSolver(spec, script, timeoutMs, seed, len(todo))
 		ans := parseAnswers(out)
+		qtimes := takeTimes(script)
 		var next []int
-		per := secs / float64(len(todo))
 		for _, qi := range todo {
+			per := secs / float64(len(todo))
+			if t, ok := qtimes[qi]; ok {
+				per = t
+			}
 			st, detail := statusOf(ans[qi])
 			q := u.queries[qi]
 			r := &results[qi]
